@@ -997,15 +997,43 @@ def _linear_ds(df):
                             peptide_column="Peptide", protein_column="Proteins", feature_columns=feats, copy_data=True)
 
 
+BEST_DIRECTIONS = ("asc-negated", "asc-evalue", "asc-with-weaker-desc")
+
+
+def _direct(df, best):
+    """The direction of the table's strongest single feature f0. small_df makes f0 a higher-is-better feature
+    ('desc', nothing changes). 'asc-negated': f0 -> -f0, lower is better; 'asc-evalue': f0 -> exp(-f0), a positive,
+    skewed, lower-is-better feature like an e-value; 'asc-with-weaker-desc': f0 -> -f0 and the noise feature f1
+    gets a weaker higher-is-better copy of the signal, so the table mixes both directions."""
+    if best in (None, "desc"):
+        return df
+    df = df.copy()
+    f0 = df["f0"].values.astype(float)
+    if best == "asc-negated":
+        df["f0"] = -f0
+    elif best == "asc-evalue":
+        df["f0"] = np.exp(-f0)
+    elif best == "asc-with-weaker-desc":
+        df["f0"] = -f0
+        df["f1"] = df["f1"].values + 0.4 * f0
+    else:
+        raise ValueError(best)
+    return df
+
+
 def _reset_case(cfg, d):
     """Pre-train ONE model, hand it to brew. Returns (files [(df, ids)], raw output of the ORIGINAL model per file
-    (computed before brew runs), outcome, the fold copies brew trained) or None when pre-training failed."""
+    (computed before brew runs), outcome, the fold copies brew trained, what pre-training selected as best feature)
+    or None when pre-training failed."""
     brew_mod = importlib.import_module("mokapot.brew")
     df = small_df(n_spec=cfg["n_spec"], dup=2, seed=cfg["data_seed"], n_feat=cfg["n_feat"])
     if cfg.get("round"):
         df["f0"] = np.round(df["f0"] * 4) / 4
     pre = df if cfg["pre"] == "same" else small_df(n_spec=cfg["n_spec"], dup=2, seed=cfg["data_seed"] + 1,
                                                     n_feat=cfg["n_feat"])
+    same = pre is df
+    df = _direct(df, cfg.get("best"))
+    pre = df if same else _direct(pre, cfg.get("best"))
     model = _reset_rec_model_class()(DegradingEstimator(cfg["gain"], cfg["mode"]),
                                      scaler="as-is" if cfg["scaler"] == "as-is" else None, train_fdr=cfg["train_fdr"],
                                      max_iter=cfg["max_iter"], override=True, rng=cfg["data_seed"])
@@ -1015,6 +1043,7 @@ def _reset_case(cfg, d):
         return None
     if not model.is_trained:
         return None
+    picked = {"best_feat": model.best_feat, "desc": model.desc}   # only counted (is the intended history reached?)
     model.override = False                                    # ... re-training must not get worse
     model.estimator.stage = 1                                 # every later fit is a RE-training
     if cfg["files"] == 1:
@@ -1040,7 +1069,7 @@ def _reset_case(cfg, d):
         outcome = ("exception:" + type(e).__name__, str(e)[:200])
     finally:
         brew_mod.CHUNK_SIZE_ROWS_PREDICTION = old
-    return files, raw0, outcome, list(FITTED)
+    return files, raw0, outcome, list(FITTED), picked
 
 
 def _judge_reset(cfg, case):
@@ -1049,17 +1078,20 @@ def _judge_reset(cfg, case):
     'no-pretraining'."""
     if case is None:
         return [], "no-pretraining", False
-    files, raw0, outcome, fitted = case
+    files, raw0, outcome, fitted, _ = case
     kind, val = outcome
+    # the class of history in the case id: a table whose strongest single feature is a lower-is-better one
+    asc = "" if cfg.get("best") in (None, "desc") else "(best-feature-ascending)"
+    RESET, PRE = "reset%s:" % asc, "pretrained-folds%s:" % asc
     worse = [m for m in fitted if m.fit_error_ == WORSE]
     other = [m for m in fitted if m.fit_error_ not in (None, WORSE)]
     if other or len(fitted) != cfg["folds"]:
         if kind == "RuntimeError":
             return [], "untrained", False                     # training stopped with another explicit error
-        return [("reset:fold-recovery-failed", "%d fold trainings recorded for %d folds (%s)"
+        return [(RESET + "fold-recovery-failed", "%d fold trainings recorded for %d folds (%s)"
                  % (len(fitted), cfg["folds"], kind))], "untrained", False
     if kind.startswith("exception"):
-        return [(("reset:" if worse else "pretrained-folds:") + kind, "brew raised: %s" % val)], "exception", False
+        return [((RESET if worse else PRE) + kind, "brew raised: %s" % val)], "exception", False
     labs = [(df["Label"].values == 1) for df, _ in files]
     if worse:
         path = "reset-all" if len(worse) == cfg["folds"] else "reset-some"
@@ -1068,7 +1100,7 @@ def _judge_reset(cfg, case):
             if not all(acc):
                 return [], path, True                         # explicit error: the original model accepts nothing somewhere
             f32 = [1 for r, l in zip(raw0, labs) if anchors(r, l, cfg["test_fdr"], True)[0] is None]
-            return [("reset:" + ("runtimeerror-float32-threshold-tie(C01)" if f32 else "runtimeerror-unexpected"),
+            return [(RESET + ("runtimeerror-float32-threshold-tie(C01)" if f32 else "runtimeerror-unexpected"),
                      "re-training got worse in %d of %d folds; brew stopped with RuntimeError although the original model "
                      "accepts targets in every collection" % (len(worse), cfg["folds"]))], path, True
         if any(np.ndim(s) != 1 or len(s) != len(l) for s, l in zip(val, labs)):
@@ -1078,7 +1110,7 @@ def _judge_reset(cfg, case):
             cid, what, in_dom = judge(r, l, cfg["test_fdr"], ("ok", np.asarray(s, dtype=float)))
             dom = dom and bool(in_dom)
             if cid:
-                out.append(("reset:" + cid, "re-training got worse in %d of %d folds, so the ORIGINAL model's output, "
+                out.append((RESET + cid, "re-training got worse in %d of %d folds, so the ORIGINAL model's output, "
                             "calibrated over the whole collection, is expected (file %d): %s"
                             % (len(worse), cfg["folds"], fi, what)))
         return out, path, dom
@@ -1086,7 +1118,7 @@ def _judge_reset(cfg, case):
     done = sorted(fitted, key=lambda m: m.fold)
     rec = _fold_outputs(files, done, cfg["folds"])
     if rec is None:
-        return [("pretrained-folds:fold-recovery-failed", "the held-out rows of the fold models do not partition the files")], \
+        return [(PRE + "fold-recovery-failed", "the held-out rows of the fold models do not partition the files")], \
             "retrained", False
     judged, _ = rec
     acc = [anchors(raw, lab, cfg["test_fdr"])[0] is not None for _, _, _, raw, lab in judged]
@@ -1094,18 +1126,18 @@ def _judge_reset(cfg, case):
         if not all(acc):
             return [], "retrained", True
         f32 = [1 for _, _, _, raw, lab in judged if anchors(raw, lab, cfg["test_fdr"], True)[0] is None]
-        return [("pretrained-folds:" + ("runtimeerror-float32-threshold-tie(C01)" if f32 else "runtimeerror-unexpected"),
+        return [(PRE + ("runtimeerror-float32-threshold-tie(C01)" if f32 else "runtimeerror-unexpected"),
                  "brew stopped with RuntimeError although every fold has an accepted target")], "retrained", True
     if any(np.ndim(s) != 1 or len(s) != len(l) for s, l in zip(val, labs)):
         return [], "fallback", False
     if not all(acc):
-        return [("pretrained-folds:runtimeerror-missing", "a fold without accepted target did not stop the run")], "retrained", True
+        return [(PRE + "runtimeerror-missing", "a fold without accepted target did not stop the run")], "retrained", True
     out, dom = [], True
     for fi, f, pos, raw, lab in judged:
         cid, what, in_dom = judge(raw, lab, cfg["test_fdr"], ("ok", np.asarray(val[fi], dtype=float)[pos]))
         dom = dom and bool(in_dom)
         if cid:
-            out.append(("pretrained-folds:fold:" + cid, "no fold got worse; file %d fold %d: %s" % (fi, f, what)))
+            out.append((PRE + "fold:" + cid, "no fold got worse; file %d fold %d: %s" % (fi, f, what)))
     return out, "retrained", dom
 
 
@@ -1127,7 +1159,33 @@ def _reset_configs(tier, seed):
                      "workers": 1 + (k % 6 == 4), "max_iter": 1 + (k % 4 == 1),
                      "scaler": "standard" if k % 7 == 5 else "as-is", "gain": [1.0, 0.01, 30.0][(k // 2) % 3],
                      "round": k % 9 == 8})
+    # the same histories on tables whose strongest single feature is a LOWER-is-better one (the pre-trained model's
+    # best feature is then selected in ascending direction, while its decision function stays higher-is-better)
+    rng = np.random.default_rng(seed + 1111111111)
+    for j in range(_n_ascending(tier)):
+        k = n + j
+        folds = 2 + (j // len(ASC_RESET_MODES) + j) % (3 if tier == "quick" else 5)
+        fdr = [0.2, 0.25, 0.15, 0.3][(j // 2) % 4] if j % 5 else float(np.round(rng.uniform(0.12, 0.3), 3))
+        train_fdr = min(fdr, [0.1, 0.2, 0.15][j % 3])
+        if j % 16 == 11:
+            fdr = 0.001                                       # explicit-error path
+        cfgs.append({"k": k, "mode": ASC_RESET_MODES[j % len(ASC_RESET_MODES)], "best": BEST_DIRECTIONS[j % 3],
+                     "n_spec": int(rng.integers(100, 181)),
+                     "n_feat": 3 + (j // 3) % 3, "data_seed": int(rng.integers(1 << 30)), "rng": int(rng.integers(1 << 30)),
+                     "folds": folds, "test_fdr": fdr, "train_fdr": train_fdr, "pre": "other" if j % 4 == 2 else "same",
+                     "files": 2 if j % 5 == 3 else 1, "cut": int(rng.integers(35, 66)),
+                     "fmt": "parquet" if (j // 2) % 2 else "tsv", "chunk": [None, 2, 3][(j // 3) % 3],
+                     "workers": 1 + (j % 6 == 4), "max_iter": 1 + (j % 4 == 1),
+                     "scaler": "standard" if j % 4 == 3 else "as-is", "gain": [1.0, 0.01, 30.0][(j // 2) % 3],
+                     "round": j % 9 == 8})
     return cfgs
+
+
+ASC_RESET_MODES = ("weak", "flip", "some", "blind", "weak", "none", "flip", "some")
+
+
+def _n_ascending(tier):
+    return 24 if tier == "quick" else 240
 
 
 def check_reset_path(tier, seed):
@@ -1135,7 +1193,7 @@ def check_reset_path(tier, seed):
     ck = Check(
         "reset_path", "mokapot.brew.brew (single pre-trained Model: _fit_model reset flag -> _predict_with_ensemble([model]) "
         "-> OnDiskPsmDataset.calibrate_scores; else brew._predict per fold)",
-        "random: %d brew runs (seed %d) with ONE already trained Model (train_fdr 0.1..0.2, <= test_fdr except in the error-path runs, 1-2 "
+        "random: %d + %d brew runs (seed %d) with ONE already trained Model (train_fdr 0.1..0.2, <= test_fdr except in the error-path runs, 1-2 "
         "iterations, scaler as-is or StandardScaler, override=False once trained) pre-trained through Model.fit on the same table or on another "
         "table of the same kind; its linear decision_function estimator (all 3..5 features, per-fit scale x1..7, gain "
         "0.01/1/30) learns the class-mean direction while pre-training and, when re-trained inside brew, by mode in %s: a "
@@ -1143,14 +1201,20 @@ def check_reset_path(tier, seed):
         "odd-sized training sets only, or the good direction again; on-disk datasets of 200..360 PSMs in 1 or 2 files "
         "(Parquet/TSV; two files: the table cut between two spectra at 35..65 %%), folds 2..%d, test_fdr in {0.2, 0.25, 0.15, "
         "0.3, uniform(0.12,0.3), 0.001 (error path)}, "
-        "predictions in 1, 2 or 3 row chunks, max_workers 1 or 2"
-        % (len(cfgs), seed, sorted(set(RESET_MODES)), 4 if tier == "quick" else 6),
+        "predictions in 1, 2 or 3 row chunks, max_workers 1 or 2; in the first group of runs the strongest single feature f0 "
+        "is a higher-is-better one, in the second group a LOWER-is-better one (%s: f0 negated / exp(-f0), e-value-like / f0 "
+        "negated and a weaker higher-is-better signal added to f1), so that the pre-trained model's best feature is "
+        "selected in ascending direction while its decision function is still higher-is-better"
+        % (len(cfgs) - _n_ascending(tier), _n_ascending(tier), seed, sorted(set(RESET_MODES)), 4 if tier == "quick" else 6,
+           ", ".join(BEST_DIRECTIONS)),
         "Model.fit of every fold copy records its training rows and the RuntimeError it stopped with; if at least one fold "
         "stopped with 'Model performs worse after training.' (reset path) every file's returned scores must equal "
         "(raw0 - t)/(t - d), raw0 = the ORIGINAL model's decision values computed from its estimator before brew ran, "
         "t, d from the exact oracle over the WHOLE file (strictly increasing in raw0, 0 at t, -1 at d), RuntimeError "
         "iff the original model accepts no target of some file; if no fold got worse the per-fold rule of check "
-        "per_fold_chunks applies to the re-trained copies (case ids 'pretrained-folds:'); non-trivial = a reset-path run "
+        "per_fold_chunks applies to the re-trained copies (case ids 'pretrained-folds:'); the direction of the best single "
+        "feature plays no role in the expected result (the statement speaks of the model output only); case ids of the "
+        "lower-is-better group carry '(best-feature-ascending)'; non-trivial = a reset-path run "
         "in the domain (or its error path), or a re-trained run whose folds are all in the domain")
     seen = set()
     stats = collections.Counter()
@@ -1163,6 +1227,12 @@ def check_reset_path(tier, seed):
                 stats["error_path"] += 1
             if path.startswith("reset") and cfg["files"] > 1:
                 stats["reset_two_files"] += 1
+            if cfg.get("best") not in (None, "desc") and case is not None:
+                reached = case[4]["desc"] is False and case[4]["best_feat"] == "f0"
+                stats["asc_runs"] += 1
+                stats["asc_reached"] += reached
+                stats["asc_reset"] += reached and path.startswith("reset")
+                stats["asc_reset_scored"] += reached and path.startswith("reset") and case[2][0] == "ok" and bool(dom)
             ck.case(cfg, nontrivial=bool(dom) and path in ("reset-all", "reset-some", "retrained") and not vio)
             for cid, what in vio:
                 if cid not in seen:
@@ -1170,9 +1240,12 @@ def check_reset_path(tier, seed):
                     ck.violation(cid, what, cfg)
     ck.rule += "; reset-path runs: %d with every fold worse, %d with only some folds worse (%d of them on two files); %d " \
                "re-trained runs judged per fold; %d error-path runs among them; not judged: %d best-feature fallback, " \
-               "%d training stopped with another error, %d pre-training failed" \
+               "%d training stopped with another error, %d pre-training failed; lower-is-better group: %d runs, in %d of " \
+               "them pre-training selected f0 in ascending direction (Model.desc False), %d of those took the reset path, " \
+               "%d of which returned scores in the domain" \
                % (stats["reset-all"], stats["reset-some"], stats["reset_two_files"], stats["retrained"],
-                  stats["error_path"], stats["fallback"], stats["untrained"], stats["no-pretraining"])
+                  stats["error_path"], stats["fallback"], stats["untrained"], stats["no-pretraining"],
+                  stats["asc_runs"], stats["asc_reached"], stats["asc_reset"], stats["asc_reset_scored"])
     return _freeze(ck)
 
 
@@ -1269,5 +1342,8 @@ if __name__ == "__main__":
           "after training.' in at least one fold, single trained Model passed); the original model's output is computed "
           "from its estimator before brew runs; the degradation of the re-trained estimator is driven by a `stage` "
           "attribute the harness sets after pre-training; runs taken over by the best-feature fallback (C07) or whose "
-          "training stops with another error are counted, not judged; lists of trained models are not covered here",
+          "training stops with another error are counted, not judged; lists of trained models are not covered here; "
+          "in the lower-is-better group the direction pre-training selected for the best feature (Model.best_feat, "
+          "Model.desc) is read off the pre-trained model only to COUNT how many runs reach that history, the expected "
+          "scores do not depend on it",
           "comparison tolerance %g relative; desc=True only" % TOL])
